@@ -52,7 +52,7 @@ ActionClauses(pre, r, post) ==
 Verdict(r) ==
   IF r.preanom # <<>> THEN <<"tainted">> ELSE
   LET pre == FromJ(r.pre) IN
-  IF ~Integrity(pre) \/ ~UidFresh(pre) \/ ~SCInv(pre) THEN <<"tainted">>
+  IF ~Integrity(pre) \/ ~SCInv(pre) THEN <<"tainted">>
   ELSE IF SCUnspecified(pre, r.op) THEN <<"unspecified">>
   ELSE IF r.postanom # <<>> THEN <<"C03:anomaly." \o r.postanom[1]>>
   ELSE
